@@ -352,8 +352,9 @@ def rich_case(seed, k):
         for v in variants:
             f = v["fields"][v["d"]]
             arms.append("            %s => { let t: &%s = &%sg; t }" % (pat(v, v["d"]), target, "*" * (f["depth"] + 1)))
-        gl.append("impl%s ::core::ops::Deref for Ty%s {\n    type Target = %s;\n    #[allow(unreachable_patterns)]\n    fn deref(&self) -> &%s {\n"
-                  "        match self {\n%s\n        }\n    }\n}\n" % (decl, decl, target, target, "\n".join(arms)))
+        # (part of the definition text: C01 compiles these texts as well)
+        text += ("impl%s ::core::ops::Deref for Ty%s {\n    type Target = %s;\n    #[allow(unreachable_patterns)]\n    fn deref(&self) -> &%s {\n"
+                 "        match self {\n%s\n        }\n    }\n}\n" % (decl, decl, target, target, "\n".join(arms)))
     for vi, v in enumerate(variants):
         drive.append("""        {
             let x = mk%d();
